@@ -173,6 +173,10 @@ class RealRouter:
             return 'rejected:filter'
         except KeyError:
             return 'rejected:key'
+        except core.MachineryError:
+            raise
+        except Exception as e:   # noqa  -- an edit operation must be accepted or rejected with a router error
+            return 'exception:' + type(e).__name__
 
     def state(self):
         r = self.router
